@@ -181,6 +181,7 @@ let run (prop : string) (input : S.t) (observed : S.t) : S.t * string =
            if dir = "in" then
              (if not (Model.conforms ty w) then "fails:delivered-value-does-not-conform-to-the-declared-type"
               else if not (Model.denotes value w) then "fails:delivered-value-does-not-denote-what-the-client-wrote"
+              else if not (Model.only_declared ty value) then "fails:input-object-with-an-undeclared-key-accepted"
               else "holds")
            else (if not (Model.has_shape ty w) then (match ty with TEnum _ -> "fails:enum-leaf-is-not-a-declared-value" | _ -> "fails:leaf-does-not-have-the-shape-of-its-declared-type")
                  else if not (Model.out_faithful value w) then "fails:leaf-is-not-the-value-the-resolver-returned"
